@@ -101,6 +101,8 @@ class C01(InvProp):
             scn['edits'] = e1.gen_edits(rng, scn)
         if scn['patterns'] and rng.chance(0.15):
             scn['pattern_objects'] = True     # patterns added as Pattern objects that carry time options of their own
+        if rng.chance(0.2):
+            gen.add_source_tcv(rng, scn)      # a TCV attached directly to a tank or reservoir
         return scn
 
     def oracle(self, scn, out, c):
